@@ -233,3 +233,16 @@ Qed.
 Theorem ref_g15_exact z : Z.abs z < 10 ^ 15 ->
   exists k, strtod_ref (fmt_g15 (dbl_of_int z)) = Some (dbl_of_int z, k).
 Proof. intro Hz. rewrite (g15_of_int z Hz). eexists. exact (ref_d15 z Hz). Qed.
+
+(** non-vacuity: INT_MIN, and the largest integer covered by N5b *)
+Lemma g15_int_examples :
+  (int_range (-2147483648) = true /\
+   fmt_g15 (dbl_of_int (-2147483648)) = [45; 50; 49; 52; 55; 52; 56; 51; 54; 52; 56] /\
+   fmt_d (-2147483648) = [45; 50; 49; 52; 55; 52; 56; 51; 54; 52; 56]) /\
+  (Z.abs 999999999999999 < 10 ^ 15 /\
+   strtod_ref (fmt_g15 (dbl_of_int 999999999999999)) = Some (dbl_of_int 999999999999999, 15%nat)).
+Proof.
+  split.
+  - split; [reflexivity|]. split; vm_compute; reflexivity.
+  - split; [reflexivity|]. vm_compute. reflexivity.
+Qed.
